@@ -29,6 +29,7 @@ def run(ctx):
     render.opacity_and_mode(ctx)
     render.blend_table(ctx)
     render.operands_and_offset(ctx)
+    render.no_extra_skips(ctx, rule='K8')
     # code -> mode table (shared with C15)
     fn = 'asefile::layer::parse_blend_mode'
     b = ctx.anchor(fn)
